@@ -71,11 +71,17 @@ FnVal(f, a) == CASE f = "sin"  -> (a * 17 + 5) % P
                  [] f = "sqrt" -> (a * 61 + 47) % P
 U2(a, b) == (a * a * 31 + b * 7 + a * b + 3) % P
 
-\* `^`: integer exponents -3..3 are the true powers (so that folding 2^3 to 8, x^1 to x, x^0 to 1 is
-\* judged), everything else is a fixed generic map
-SmallExp == 3
+\* `^`: integer exponents -40..40 are the true powers and the exponent 1/2 of a small perfect square is its
+\* root (so that folding 2^3 to 8, 4^(1/2) to 2, x^1 to x, x^0 to 1 agrees with floating point wherever
+\* floating point is exact); everything else is a fixed generic map.  Any fixed function of (a, b) with
+\* a^0 = 1, a^1 = a, 1^b = 1, 0^b = 0 (b # 0) would do for soundness: the simplifier uses no other power law.
+SmallExp == 40
+Half == Inv(2)
+IsSmallSquare(a) == \E k \in 0..31 : k * k = a
+RootOf(a) == CHOOSE k \in 0..31 : k * k = a
 Pow(a, b) == IF b <= SmallExp THEN PowMod(a, b)
              ELSE IF b >= P - SmallExp THEN (IF a = 0 THEN NaN ELSE PowMod(Inv(a), P - b))
+             ELSE IF b = Half /\ IsSmallSquare(a) THEN RootOf(a)
              ELSE IF a = 1 THEN 1
              ELSE IF a = 0 THEN 0
              ELSE U2(a, b)
